@@ -620,7 +620,7 @@ def main_check(mod, argv):
         print(f'WARNING generated-programs-rejected: {rejected} of {total.c["runs"]} generated (valid by construction) '
               'programs were rejected by the parser and skipped')
     unat = total.c.get('unattributable', 0)
-    if total.c['runs'] and unat / total.c['runs'] > 0.2:
+    if total.c['runs'] and unat / total.c['runs'] > 0.01:
         print(f'WARNING reference-divergence: {unat} of {total.c["runs"]} runs unattributable')
     if harness_errors:
         for h in harness_errors:
